@@ -557,11 +557,103 @@ pub fn gen_template_program(s: &mut dyn Src, feat: Features) -> Program {
     Program { clauses, qname: "main".into(), qargs }
 }
 
-/// Mixture of the three families; returns the family label.
+// ------------------------------------------------------------------ family (iv): sizes the other families do not reach
+
+/// Wide predicates (arity 4-9), many clauses per predicate (8-20), long lists (8-24 elements) walked by the
+/// recursive library, clauses with 8-18 distinct variables in long conjunctions, deeply nested terms (6-12
+/// levels), long names. Small in search cost (every generator goal is followed by tests), large in shape.
+pub fn gen_large_program(s: &mut dyn Src, feat: Features) -> Program {
+    let lib = "
+        member($X, [$X | $_]).
+        member($X, [$_ | $T]) :- member($X, $T).
+        len([], 0).
+        len([$_ | $T], $N) :- len($T, $M), $N = add($M, 1).
+        app([], $L, $L).
+        app([$H | $T], $L, [$H | $R]) :- app($T, $L, $R).
+        last([$X], $X).
+        last([$_ | $T], $X) :- last($T, $X).
+        nth(0, [$X | $_], $X).
+        nth($N, [$_ | $T], $X) :- $N > 0, $M = subtract($N, 1), nth($M, $T, $X).
+    ";
+    let mut clauses = parse_clauses(lib);
+    let fact = |name: &str, args: Vec<Term>| Clause { name: name.to_string(), args, body: None };
+    let long_name = |s: &mut dyn Src, stem: &str| -> String { if chance(s, 1, 3) { format!("{}_{}", stem, "abcdefghij".repeat(2 + s.draw(3) as usize)) } else { stem.to_string() } };
+    // a wide table
+    let wide = long_name(s, "wide");
+    let arity = 4 + s.draw(6) as usize;
+    let rows = 6 + s.draw(12) as usize;
+    for r in 0..rows {
+        let args: Vec<Term> = (0..arity).map(|c| {
+            if c == 0 { Term::Int((r % 5) as i64) }
+            else if chance(s, 1, 12) { Term::Var(format!("$C{}", c)) }
+            else if chance(s, 1, 3) { Term::atom(pick(s, &ATOMS)) } else { Term::Int(s.draw(3) as i64) }
+        }).collect();
+        clauses.push(fact(&wide, args));
+    }
+    // many clauses of one predicate, facts and rules mixed
+    let many = long_name(s, "many");
+    let nmany = 8 + s.draw(13) as usize;
+    for i in 0..nmany {
+        if chance(s, 1, 4) {
+            clauses.push(Clause { name: many.clone(), args: vec![Term::var("$K")], body: Some(Goal::And(vec![
+                Goal::Call(wide.clone(), (0..arity).map(|c| if c == 0 { Term::var("$K") } else if c == 1 { Term::atom(pick(s, &ATOMS)) } else { Term::Anon }).collect()),
+                Goal::Compare(pick(s, &CmpOp::ALL), Term::var("$K"), Term::Int(s.draw(5) as i64))])) });
+        } else { clauses.push(fact(&many, vec![Term::Int((i % 7) as i64)])); }
+    }
+    // a long list and a deep term
+    let n = 8 + s.draw(17) as usize;
+    let long_list = Term::List((0..n).map(|i| if chance(s, 1, 5) { Term::atom(pick(s, &ATOMS)) } else { Term::Int((i % 6) as i64) }).collect(), None);
+    clauses.push(fact("longlist", vec![long_list.clone()]));
+    let depth = 6 + s.draw(7);
+    let mut deep = Term::var("$Core");
+    for i in 0..depth { deep = if i % 3 == 2 { Term::List(vec![deep], None) } else { Term::Cmp(pick(s, &["f", "g"]).to_string(), if i % 2 == 0 { vec![deep] } else { vec![Term::Int(i as i64), deep] }) }; }
+    clauses.push(fact("deep", vec![deep.clone()]));
+    // a clause with many distinct variables in a long conjunction
+    let nv = 8 + s.draw(11) as usize;
+    let vname = |i: usize| format!("$V{}", i + 1);
+    let mut body: Vec<Goal> = vec![];
+    let mut bound = 0usize;   // variables $V1..$V<bound> are bound by now
+    while bound < nv {
+        let take = (nv - bound).min(arity - 1).max(1);
+        let mut args = vec![Term::Int(s.draw(5) as i64)];
+        for c in 1..arity { args.push(if c <= take { Term::Var(vname(bound + c - 1)) } else { Term::Anon }); }
+        body.push(Goal::Call(wide.clone(), args));
+        bound += take;
+        // a test right after each generator keeps the search small
+        let a = s.draw(bound as u32) as usize;
+        let b = s.draw(bound as u32) as usize;
+        body.push(match s.draw(3) { 0 => Goal::Unify(Term::Var(vname(a)), Term::Var(vname(b))), 1 => Goal::Compare(CmpOp::Eq, Term::Var(vname(a)), Term::Var(vname(a))), _ => Goal::Call(many.clone(), vec![Term::Int(s.draw(7) as i64)]) });
+    }
+    let extra = s.draw(4);
+    for _ in 0..extra {
+        body.push(match s.draw(6) {
+            0 => Goal::And(vec![Goal::Call("longlist".into(), vec![Term::var("$L")]), Goal::Call("len".into(), vec![Term::var("$L"), Term::var("$N")])]),
+            1 => Goal::And(vec![Goal::Call("longlist".into(), vec![Term::var("$L")]), Goal::Call("last".into(), vec![Term::var("$L"), Term::var("$E")])]),
+            2 => Goal::And(vec![Goal::Call("longlist".into(), vec![Term::var("$L")]), Goal::Call("nth".into(), vec![Term::Int(s.draw(n as u32) as i64), Term::var("$L"), Term::var("$E")])]),
+            3 => Goal::And(vec![Goal::Call("deep".into(), vec![Term::var("$D")]), Goal::Unify(Term::var("$D"), deep.map_vars(&mut |_| Term::atom("core")))]),
+            4 if feat.cut => Goal::Cut,
+            _ => Goal::BuiltIn("count".into(), vec![long_list.clone(), Term::var("$Cnt")]),
+        });
+    }
+    let head_vars: Vec<Term> = vec![Term::Var(vname(0)), Term::Var(vname(nv - 1)), Term::Var(vname(nv / 2))];
+    let big = long_name(s, "big");
+    clauses.push(Clause { name: big.clone(), args: head_vars, body: Some(Goal::And(body)) });
+    // the query: the big rule, or one of the size-driven library calls directly
+    match s.draw(5) {
+        0 => Program { clauses, qname: "app".into(), qargs: vec![Term::var("$A"), Term::var("$B"), long_list] },
+        1 => Program { clauses, qname: "member".into(), qargs: vec![Term::var("$A"), long_list] },
+        2 => Program { clauses, qname: many, qargs: vec![Term::var("$A")] },
+        3 => Program { clauses, qname: wide, qargs: (0..arity).map(|c| Term::Var(format!("$Q{}", c + 1))).collect() },
+        _ => Program { clauses, qname: big, qargs: vec![Term::var("$A"), Term::var("$B"), Term::var("$C")] },
+    }
+}
+
+/// Mixture of the four families; returns the family label.
 pub fn gen_any_program(s: &mut dyn Src, feat: Features) -> (Program, &'static str) {
-    match weighted(s, &[5, 3, 1]) {
+    match weighted(s, &[10, 6, 2, 1]) {
         0 => (gen_program(s, feat, false), "stratified"),
         1 => (gen_template_program(s, feat), "recursive-template"),
-        _ => (gen_program(s, feat, true), "free-recursion"),
+        2 => (gen_program(s, feat, true), "free-recursion"),
+        _ => (gen_large_program(s, feat), "large-shapes"),
     }
 }
